@@ -35,7 +35,7 @@ def elem_kind(ds):
     b = B()
     if b.mode == 'sym':
         dt = ds.dtype
-        if dt is b.h5.VLEN_STR:
+        if isinstance(dt, type(b.h5.VLEN_STR)):
             return 'str'
         if dt is None:
             arr = ds[:]
